@@ -659,3 +659,36 @@ Fixpoint run_forward (fc : fcache) (h : list fstep) : list uid * fcache :=
     let '(bs, fc3) := run_forward fc2 rest in
     (b :: bs, fc3)
   end.
+
+(* ---------- client.go: Router.LookupIPAddr (per-family loop), resolvingDialer.lookupIPAddr ---------- *)
+Inductive lres := LAddrs | LPassthrough | LError (e : N) | LNone.
+
+(* for _, qtype := range qtypes { selectUpstream; lookupTypeDedup } — every asked upstream answers with an address *)
+Fixpoint lookup_loop (r : router) (nm : string) (bm : list N) (q : question) (ts : list N)
+         (sent : list (N * N)) (saw_pass : bool) (first_err : option N) : list (N * N) * lres :=
+  match ts with
+  | [] => (sent, match sent with
+                 | _ :: _ => LAddrs
+                 | [] => if saw_pass then LPassthrough else match first_err with Some e => LError e | None => LNone end
+                 end)
+  | t :: rest =>
+    match select_upstream r nm bm (with_type q t) with
+    | Ok (PlanUp i) => lookup_loop r nm bm q rest (sent ++ [(t, i)]) saw_pass first_err
+    | Ok _ => lookup_loop r nm bm q rest sent true first_err            (* errPassthroughToBaseResolver *)
+    | Err e => lookup_loop r nm bm q rest sent saw_pass (match first_err with None => Some e | s => s end)
+    end
+  end.
+Definition lookup_ip_addr (r : router) (nm : string) (ver : N) (bm : list N) (q : question) : list (N * N) * lres :=
+  lookup_loop r nm bm q (families ver) [] false None.
+
+(* resolvingDialer.lookupIPAddr / lookupControlIPAddr: questions sent, and who produced the result
+   (0 upstreams, 300 bootstrap, 301 base, 1000+e error) *)
+Definition dialer_lookup (r : router) (named : option string) (control_host host : string) (ver : N) (bm : list N) (q : question)
+  : list (N * N) * N :=
+  let nm := match named with Some n => n | None => ""%string end in
+  if same_host host control_host then
+    if String.eqb nm "" then ([], 300)
+    else let '(s, l) := lookup_ip_addr r nm ver bm q in
+         (s, match l with LAddrs => 0 | LPassthrough => 300 | LError e => 1000 + e | LNone => 300 end)
+  else let '(s, l) := lookup_ip_addr r nm ver bm q in
+       (s, match l with LAddrs => 0 | LPassthrough => 301 | LError e => 1000 + e | LNone => if String.eqb nm "" then 301 else 0 end).
